@@ -32,6 +32,32 @@ PROPS = {
         'out': 'string operator results on known symbols (separate c06_str harnesses), set x set union/intersection of two non-empty sets, '
                'lookups (get/contains) with symbolic keys that differ, nested collections, extern functions, regex semantics',
     },
+    'C16': {
+        'crate': 'biscuit-auth',
+        'quick': [r'c16_term_(int|null|set_null|array|map|set_int)', r'c16_binary_\w+', r'c16_unary_and_closure', r'c16_check_kinds_and_scopes', r'c16_sigversion_\w+'],
+        'thorough': [r'c16_\w+'],
+        'cap': {'quick': 300, 'thorough': 900},
+        'functions': ['datalog::get_schema_version', 'datalog::SchemaVersion::{version,check_compatibility}',
+                      'datalog::{contains_v3_1_op,contains_v3_3_op,contains_v3_3_predicate,contains_v3_3_term}'],
+        'bounds': 'one feature per block: 14 term shapes (each type; set/array/map with 0 or 1 element; null nested in a set) at 6 sites '
+                  '(fact, rule head, rule body, check-query body, rule expression, check expression); all 29 binary and 5 unary operators and a closure '
+                  'at 2 sites; 3 check kinds; scopes on block / rule / check query; feature in the 2nd fact/rule/check/query; declared version: any u32',
+        'out': 'the builders (BlockBuilder::build) calling the detector with the right arguments; blocks with more than 2 items per list; nesting deeper than one level',
+    },
+    'C17': {
+        'crate': 'biscuit-auth',
+        'quick': [r'c17_\w+'],
+        'thorough': [],
+        'cap': {'quick': 300, 'thorough': 900},
+        'functions': ['crypto::ed25519::{KeyPair,PrivateKey,PublicKey}::from_bytes', 'crypto::p256::{KeyPair,PrivateKey}::from_bytes',
+                      'crypto::ed25519::PublicKey::verify_signature', 'crypto::PublicKey::from_proto'],
+        'bounds': 'key byte strings of 13 wrong lengths in 0..=40 (contents symbolic) per decoder; ed25519 signatures of 0,1,32,63,65,66,70 bytes and of 64 bytes '
+                  '(contents symbolic, primitive stubbed Ok/Err); protobuf algorithm tag any i32',
+        'stubs': ['ed25519_dalek::SigningKey::from_bytes', 'ed25519_dalek::VerifyingKey::from_bytes', 'ed25519_dalek::VerifyingKey::verify_strict', 'alloc::fmt::format'],
+        'out': 'encoding round trips (hex, PEM, DER, PKCS#8), point validation, "a private key yields the same public key", the signature primitives themselves '
+               '(inside ed25519-dalek / p256), secp256r1 public-key and signature decoding (SEC1 / DER parsers of the p256 crate)',
+        'level_text': 'Guards and dispatch only: bounded symbolic execution of the length / algorithm checks in front of the cryptographic decoders.',
+    },
 }
 
 
